@@ -91,6 +91,103 @@ std::vector<size_t> oracle_greedy(const std::vector<Pt<K>> &pts, size_t eps, uin
     return starts;
 }
 
+/// The same pairwise criterion as Feas, evaluated in O(log k) per point: the maximum of (l_i - u_j)/(x_i - x_j) over the earlier points j
+/// is attained on the LOWER convex hull of the points (x_j, u_j), the minimum of (u_i - l_j)/(x_i - x_j) on the UPPER convex hull of the
+/// points (x_j, l_j); along a convex chain the slope to a point on its right is bitonic, so the optimum is found by binary search.
+/// Exact 128-bit arithmetic (integer keys only).  The O(k^2) form above stays the reference: whenever a session is small enough for
+/// it, both are run and must agree (a disagreement is a harness bug, never a violation).
+template<typename K>
+struct FastFeas {
+    struct P {
+        i128 x, y;
+    };
+    std::vector<P> low_u, up_l;
+    bool has = false;
+    i128 lo_n = 0, lo_d = 1, hi_n = 0, hi_d = 1;
+    bool lo_set = false, hi_set = false;
+    size_t eps;
+    explicit FastFeas(size_t e) : eps(e) {}
+    static i128 cross(const P &a, const P &b, const P &c) { return (b.x - a.x) * (c.y - a.y) - (b.y - a.y) * (c.x - a.x); }
+    static bool less(i128 an, i128 ad, i128 bn, i128 bd) { return an * bd < bn * ad; }
+    void clear() {
+        low_u.clear();
+        up_l.clear();
+        has = lo_set = hi_set = false;
+    }
+    bool try_add(const Pt<K> &p) {
+        const i128 x = (i128) p.x, lp = (i128) Feas<K>::l_of(p.y, eps), up = (i128) Feas<K>::u_of(p.y, eps);
+        i128 nlo_n = lo_n, nlo_d = lo_d, nhi_n = hi_n, nhi_d = hi_d;
+        bool nlo_set = lo_set, nhi_set = hi_set;
+        if (has) {
+            { // max slope from the lower hull of the U points to (x, lp)
+                size_t a = 0, b = low_u.size() - 1;
+                while (a < b) {
+                    size_t m = (a + b) / 2;
+                    // f(m) < f(m+1)  <=>  (lp - y_m) * (x - x_{m+1}) < (lp - y_{m+1}) * (x - x_m)
+                    if ((lp - low_u[m].y) * (x - low_u[m + 1].x) < (lp - low_u[m + 1].y) * (x - low_u[m].x)) a = m + 1;
+                    else b = m;
+                }
+                i128 n = lp - low_u[a].y, d = x - low_u[a].x;
+                if (!nlo_set || less(nlo_n, nlo_d, n, d)) nlo_n = n, nlo_d = d, nlo_set = true;
+            }
+            { // min slope from the upper hull of the L points to (x, up)
+                size_t a = 0, b = up_l.size() - 1;
+                while (a < b) {
+                    size_t m = (a + b) / 2;
+                    if ((up - up_l[m].y) * (x - up_l[m + 1].x) > (up - up_l[m + 1].y) * (x - up_l[m].x)) a = m + 1;
+                    else b = m;
+                }
+                i128 n = up - up_l[a].y, d = x - up_l[a].x;
+                if (!nhi_set || less(n, d, nhi_n, nhi_d)) nhi_n = n, nhi_d = d, nhi_set = true;
+            }
+            if (nlo_set && nhi_set && less(nhi_n, nhi_d, nlo_n, nlo_d)) return false;
+        }
+        lo_n = nlo_n, lo_d = nlo_d, hi_n = nhi_n, hi_d = nhi_d, lo_set = nlo_set, hi_set = nhi_set;
+        P pu{x, up}, pl{x, lp};
+        while (low_u.size() >= 2 && cross(low_u[low_u.size() - 2], low_u.back(), pu) <= 0) low_u.pop_back();
+        low_u.push_back(pu);
+        while (up_l.size() >= 2 && cross(up_l[up_l.size() - 2], up_l.back(), pl) >= 0) up_l.pop_back();
+        up_l.push_back(pl);
+        has = true;
+        return true;
+    }
+};
+
+template<typename K>
+std::vector<size_t> oracle_greedy_fast(const std::vector<Pt<K>> &pts, size_t eps) {
+    std::vector<size_t> starts;
+    if constexpr (!std::is_floating_point_v<K>) {
+        FastFeas<K> f(eps);
+        for (size_t i = 0; i < pts.size(); ++i) {
+            if (!f.has) {
+                starts.push_back(i);
+                f.try_add(pts[i]);
+                continue;
+            }
+            if (!f.try_add(pts[i])) {
+                f.clear();
+                starts.push_back(i);
+                f.try_add(pts[i]);
+            }
+        }
+    }
+    return starts;
+}
+
+/// Greedy segmentation by the exact oracle: the fast form always, cross-checked by the quadratic reference while the budget lasts.
+template<typename K>
+std::vector<size_t> oracle_starts(const std::vector<Pt<K>> &pts, size_t eps, uint64_t &ops, uint64_t &cross_checked) {
+    std::vector<size_t> fast = oracle_greedy_fast<K>(pts, eps);
+    if (ops <= 60000000ull) {
+        std::vector<size_t> slow = oracle_greedy<K>(pts, eps, ops, 3000);
+        if (!slow.empty() || pts.empty()) {
+            ++cross_checked;
+            if (slow != fast) throw HarnessBug("the O(k log k) feasibility oracle disagrees with the quadratic reference oracle");
+        }
+    }
+    return fast;
+}
+
 template<typename K>
 using CS = typename pgm::internal::OptimalPiecewiseLinearModel<K, size_t>::CanonicalSegment;
 
@@ -179,7 +276,7 @@ struct LevelProbe : pgm::PGMIndex<K, Eps, ER, float> {
 ///  first_xs: first keys of the segments the library produced for this session, in order.
 template<typename K>
 void check_session_c04(CaseResult &res, const std::vector<Pt<K>> &pts, const std::vector<K> &first_xs, size_t eps, bool last_may_be_short,
-                       uint64_t &ops, uint64_t &unchecked_large, const char *what) {
+                       uint64_t &ops, uint64_t &cross_checked, const char *what) {
     if (!res.ok) return;
     // O(1) facts: consecutive segment starts are more than 2*eps ranks apart
     {
@@ -200,15 +297,7 @@ void check_session_c04(CaseResult &res, const std::vector<Pt<K>> &pts, const std
                 return;
             }
     }
-    if (ops > 60000000ull) {
-        ++unchecked_large;
-        return;
-    }
-    std::vector<size_t> starts = oracle_greedy<K>(pts, eps, ops, 3000);
-    if (starts.empty() && !pts.empty()) {
-        ++unchecked_large;
-        return;
-    }
+    std::vector<size_t> starts = oracle_starts<K>(pts, eps, ops, cross_checked);
     // the library's segmentation must coincide with the oracle-driven greedy one (=> feasible, maximal, minimal)
     size_t j = 0;
     for (; j < starts.size() && j < first_xs.size(); ++j) {
@@ -347,8 +436,24 @@ CaseResult run_seg(const RunCtx &ctx, TapeReader &t, unsigned size_hint) {
     o.xthreads = ctx.x("xthreads");
     o.xprocs = ctx.x("xprocs");
     o.smooth_curves = layer == 1;
+    o.hull_stress = layer == 1;
     std::vector<K> keys = gen_keys<K>(t, o, meta);
     const size_t n = keys.size();
+    if constexpr (std::is_same_v<K, double>) {
+        // C03 only: extreme binary scales, down to subnormal keys and up to 2^1010.  The builder computes in long double, whose exponent
+        // range holds the slopes (up to 2^1074 ranks per unit of key); PGMIndex's float / double slopes do not, which is why the index
+        // level properties exclude such densities.  The rescaling is exact (|m| < 2^50 lattice coordinates times a power of two).
+        const bool rescale = c03 && t.chance(1, 8);
+        static const int targets[] = {-1074, -1070, -1030, -1022, -900, -300, 300, 900, 960};
+        const int E = targets[t.below(9)];
+        if (rescale && !o.xkeys) {
+            for (auto &k: keys) k = std::ldexp(k, E - meta.fp_exp2);
+            for (size_t i = 1; i < n; ++i)
+                if (keys[i] < keys[i - 1] || !std::isfinite(keys[i])) throw HarnessBug("rescaled keys are not sorted / finite");
+            meta.recipe += " RESCALED(2^" + std::to_string(E) + ")";
+        }
+        if (keys.front() != 0 && std::fabs(keys.front()) < 2.3e-308) meta.recipe += " [subnormal keys]";
+    }
 
     // layer 0: y ranks for the distinct keys
     std::vector<Pt<K>> api_pts;
@@ -407,13 +512,15 @@ CaseResult run_seg(const RunCtx &ctx, TapeReader &t, unsigned size_hint) {
 
     res.label(layer == 0 ? "layer_builder_api" : layer == 1 ? "layer_make_segmentation" : "layer_pgm_levels");
     res.label(meta.size_class);
+    if (meta.recipe.find("RESCALED") != std::string::npos) res.label("fp_keys_rescaled_to_an_extreme_binade");
+    if (meta.recipe.find("[subnormal keys]") != std::string::npos) res.label("fp_subnormal_keys");
     if (eps == 0) res.label("eps0");
     if (eps <= 4) res.label("eps_le4");
     if (meta.has_dup) res.label("dups");
     if (nested) res.label("called_inside_parallel_region");
     if (meta.excluded_known) res.label("excluded_known_KF1_double_steep_capped");
 
-    uint64_t ops = 0, unchecked_large = 0, npoints = 0, nsegs = 0;
+    uint64_t ops = 0, cross_checked = 0, npoints = 0, nsegs = 0;
     long double worst_excess = -1e9L;
     size_t max_seg_pts = 0;
 
@@ -451,7 +558,7 @@ CaseResult run_seg(const RunCtx &ctx, TapeReader &t, unsigned size_hint) {
             }
         }
         if constexpr (!is_fp)
-            if (c04 && res.ok) check_session_c04<K>(res, api_pts, first_xs, eps, false, ops, unchecked_large, "builder API");
+            if (c04 && res.ok) check_session_c04<K>(res, api_pts, first_xs, eps, false, ops, cross_checked, "builder API");
     }
 
     // ---------------------------------------------------------------- layer 1: make_segmentation_par over keys
@@ -535,7 +642,7 @@ CaseResult run_seg(const RunCtx &ctx, TapeReader &t, unsigned size_hint) {
                     if (has_lim) lim_set = all[sess_begin[s + 1]].x;
                     while (sj < segs.size() && (!has_lim || segs[sj].get_first_x() < lim_set)) fx.push_back(segs[sj++].get_first_x());
                     for (size_t j = 0; j < fx.size(); ++j) max_seg_pts = std::max(max_seg_pts, sp.size() / std::max<size_t>(1, fx.size()));
-                    check_session_c04<K>(res, sp, fx, eps, true, ops, unchecked_large, ("chunk " + std::to_string(s)).c_str());
+                    check_session_c04<K>(res, sp, fx, eps, true, ops, cross_checked, ("chunk " + std::to_string(s)).c_str());
                 }
                 size_t bound = n / (2 * eps + 1) + c + 1;
                 if (res.ok && segs.size() > bound)
@@ -608,12 +715,7 @@ CaseResult run_seg(const RunCtx &ctx, TapeReader &t, unsigned size_hint) {
                         size_t s = ls[ci];
                         std::vector<Pt<K>> sp;
                         for (auto &p: sessions[s].points) sp.push_back({p.first, p.second});
-                        std::vector<size_t> starts = oracle_greedy<K>(sp, le, ops, 3000);
-                        if (starts.empty() && !sp.empty()) {
-                            ++unchecked_large;
-                            produced.clear();
-                            break;
-                        }
+                        std::vector<size_t> starts = oracle_starts<K>(sp, le, ops, cross_checked);
                         for (size_t st: starts) produced.push_back(sp[st].x);
                         pbeg += sp.size();
                     }
@@ -661,10 +763,10 @@ CaseResult run_seg(const RunCtx &ctx, TapeReader &t, unsigned size_hint) {
     res.sum("constraint_points", npoints);
     res.sum("segments", nsegs);
     res.sum("oracle_pair_ops", ops);
-    res.sum("unchecked_large_sessions", unchecked_large);
+    res.sum("sessions_cross_checked_by_the_quadratic_reference_oracle", cross_checked);
     if (c03) res.max(is_fp ? "worst_excess_over_eps_fp_keys" : "worst_excess_over_eps_int_keys", (double) worst_excess);
     if (c03) res.nontrivial = nsegs >= 2 && max_seg_pts >= 3;
-    if (c04) res.nontrivial = nsegs >= 3 && unchecked_large == 0 && npoints >= 2 * eps + 2;
+    if (c04) res.nontrivial = nsegs >= 3 && npoints >= 2 * eps + 2;
     if (!res.ok && ctx.want_desc) res.desc = describe();
     return res;
 }
